@@ -89,7 +89,7 @@ def sendBegin (s : State) (m : Msg) : Option State :=
 /-- emitter: the claimed slot is published; `send` returns `Ok`. -/
 def sendEnd (s : State) (m : Msg) : Option State :=
   if m ∈ s.inflight then
-    some { s with inflight := s.inflight.erase m, buf := s.buf ++ [m], accepted := s.accepted ++ [m] }
+    some { s with inflight := s.inflight.filter (fun x => x != m), buf := s.buf ++ [m], accepted := s.accepted ++ [m] }
   else none
 
 /-- consumer: a receive that returns the head of the visible queue. -/
